@@ -22,6 +22,8 @@ def obligations(tier):
     for tf in (None, "T1", "T5"):
         for life in (60, 150, 400):
             obs.append(Ob(f"window/tf={tf}/lifespan={life}s/n={n1}", dict(n=n1, tf=tf, life=life), dict(round="ideal", div="assume"), fn="run_window", weight=50, budget_s=900, max_paths=200000))
+    # stamps with fractions of a second on a manager that does not collapse: the window is measured on the stamps as given
+    obs.append(Ob("window/sub-second stamps/lifespan=10s", dict(life=10), dict(round="ideal", div="assume"), fn="run_window_subsecond", weight=20, budget_s=300))
     # lifespans of a day and more (timedelta(days=1, hours=1), timedelta(days=3)): the window is the whole duration
     for tf, life in ((None, 90000), ("H1", 90000), (None, 259200), ("D1", 259200)):
         obs.append(Ob(f"window/tf={tf}/lifespan={life}s/n={n1}", dict(n=n1, tf=tf, life=life), dict(round="ideal", div="assume"), fn="run_window", weight=50, budget_s=900, max_paths=200000))
@@ -118,6 +120,28 @@ def run_window(ctx, P):
                 ctx.observe("retained", got)
             if ctx.require("retained-count" + lab, len(got) == len(exp), f"after {pos} candles: kept {len(got)}, window holds {len(exp)}"):
                 ctx.equal("retained==window" + lab, got, exp)
+
+
+def run_window_subsecond(ctx, P):
+    from datetime import datetime
+    _, _, Candle, CandleManager, Hexital = lib()
+    life = timedelta(seconds=P["life"])
+    # 1-second spacing with a 7-cycle of fractions (so that the candle `life` seconds back has another fraction)
+    fr = [350000, 800000, 120000, 600000, 50000, 930000, 470000]
+    t0 = datetime(2024, 3, 4, 12, 0, 0)
+    stamps = [t0 + timedelta(seconds=k, microseconds=fr[k % 7]) for k in range(26)]
+    vals = [sym_ohlcv(ctx, k) for k in range(4)]
+    mk = lambda k: Candle(*vals[k % 4], timestamp=stamps[k])
+    for host in ("manager", "hexital"):
+        h = CandleManager([], candles_lifespan=life) if host == "manager" else Hexital("hx", [], [build("SMA", dict(period=2))], candles_lifespan=life)
+        for k in range(len(stamps)):
+            h.append(mk(k))
+            lst = h.candles if host == "manager" else h.candles()
+            got = [c.timestamp for c in lst]
+            exp = [t for t in stamps[: k + 1] if t >= stamps[k] - life]
+            if not ctx.require(f"{host}: retained == stamps not older than newest - lifespan (after append {k + 1})", got == exp, f"kept {[t.strftime('%S.%f') for t in got]} expected {[t.strftime('%S.%f') for t in exp]}"):
+                break
+    ctx.observe("count", len(lst))
 
 
 def run_window_fill(ctx, P):
